@@ -103,8 +103,16 @@ pub trait AggValidExt<T: IsNone>: IntoIterator<Item = T> + Sized {
         T::Inner: Number,
     {
         let (mut m1, mut m2, mut m3, mut m4) = (0., 0., 0., 0.);
+        // all valid values identical: the spread is exactly zero, whatever rounding
+        // residue `var` carries
+        let (mut first, mut all_same) = (f64::NAN, true);
         let n = self.vapply_n(|v| {
             let v = v.f64();
+            if first.is_nan() {
+                first = v;
+            } else if v != first {
+                all_same = false;
+            }
             m1 += v;
             let v2 = v * v;
             m2 += v2;
@@ -119,7 +127,7 @@ pub trait AggValidExt<T: IsNone>: IntoIterator<Item = T> + Sized {
             m1 /= n_f64; // Ex
             m2 /= n_f64; // Ex^2
             let var = m2 - m1.powi(2);
-            if var <= EPS {
+            if var <= EPS || all_same {
                 0.
             } else {
                 let var2 = var.powi(2); // var^2
